@@ -102,7 +102,7 @@ class StreamTask:
         if self.kind.uses_library_rng:
             self.rng_before[k] = np.random.get_state()
         try:
-            r = self.kind.step(self.inst, self.p, self.q, g, a, m, self.p.get('dt_call', False))
+            r = self.kind.step(self.inst, self.p, self.q, g, a, m, C.call_dt(self.p, self.hist.dt))
             r = out_to_array(r)
             self.out[k] = r
             if r is not None and self.kind.recursive:
@@ -237,11 +237,16 @@ class Pipeline:
                             groups[key]['_shared_' + name] = np.array(v, dtype=float)
                 shared = groups[key]
             cls = BatchTask if (c.get('mode') == 'batch' or not C.KINDS[c['kind']].streaming) else StreamTask
-            self.tasks.append(cls(i, c, self.hist, dip, shared))
+            cfg = C.make_config(c.get('params', {}))
+            cfg.update(shared)          # arrays shared with other instances win over the task's own
+            task = cls(i, c, self.hist, dip, cfg)
+            task.cfg = cfg
+            self.tasks.append(task)
         extra = {}
-        for (kind, gid), d in groups.items():
-            for name, arr in d.items():
-                extra[f'param:{kind}:{gid}:{name}'] = arr
+        for t in self.tasks:
+            for name, arr in t.cfg.items():
+                if not any(arr is a for a in extra.values()):
+                    extra[f'param:{t.kind.name}:task{t.idx}:{name}'] = arr
         self.shared_arrays = extra
         self.monitor = BusMonitor(self.hist, extra)
         return self
